@@ -177,6 +177,18 @@ func MX() []*descriptorpb.FileDescriptorProto {
 	nest2.Rep("shapes", 2, E(shape))
 	nest2.Field("e2", 3, E(e2))
 
+	// well-known types in every position (used by C18: generators special-case them)
+	wkt := f.Msg("Wkt")
+	wkt.Map("mask_by_flag", 1, Bool, M(fmT))
+	wkt.Map("dur_by_name", 2, String, M(durT))
+	wkt.Rep("masks", 3, M(fmT))
+	wkt.OneofField("w", "w_mask", 4, M(fmT))
+	wkt.OneofField("w", "w_ts", 5, M(tsT))
+	wkt.Map("any_by_id", 6, Int32, M(anyT))
+	wkt.Map("ts_by_id", 7, Int32, M(tsT))
+	wkt.Rep("durs", 8, M(durT))
+	wkt.Map("color_by_flag", 9, Bool, E(color))
+
 	ops := f.Msg("Ops")
 	ops.Field("i", 1, S(Int32))
 	ops.Field("s", 2, S(String))
